@@ -32,7 +32,7 @@ def mk_desc(d):
     import stereomolgraph.stereodescriptors as sd
 
     c, atoms, p = d
-    return getattr(sd, c)(tuple(atoms), p)
+    return getattr(sd, c)(fresh(tuple(atoms)), p)
 
 
 def _attr(v):
@@ -109,6 +109,25 @@ def _short(x, n=300):
 # ---------------------------------------------------------------------------
 # building real graphs from plain data
 # ---------------------------------------------------------------------------
+def fresh(x):
+    """rebuilds every int as a NEW object (ids beyond CPython's small-int cache): two equal ids that reach the library
+    from a file, JSON or arithmetic are equal but not identical - a harness that passes the very same object twice
+    hides every `is` / `==` confusion"""
+    if isinstance(x, bool) or x is None:
+        return x
+    if isinstance(x, int):
+        return int(str(x))
+    if isinstance(x, list):
+        return [fresh(v) for v in x]
+    if isinstance(x, tuple):
+        return tuple(fresh(v) for v in x)
+    if isinstance(x, frozenset):
+        return frozenset(fresh(v) for v in x)
+    if isinstance(x, dict):
+        return {fresh(k): fresh(v) for k, v in x.items()}
+    return x
+
+
 def build(pg: dict, cls_name: str | None = None, rng=None, idmap=None, rewrite=False):
     """Construct a real graph through the public mutators only.
     rng      : shuffles the insertion order of atoms, bonds, descriptors, changes
@@ -134,9 +153,9 @@ def build(pg: dict, cls_name: str | None = None, rng=None, idmap=None, rewrite=F
     for a, attrs in atoms:
         attrs = dict(attrs)
         z = attrs.pop("atom_type")
-        g.add_atom(a, z, **attrs)
+        g.add_atom(fresh(a), z, **attrs)
     for b, attrs in bonds:
-        x, y = tuple(b)
+        x, y = fresh(tuple(b))
         if rng is not None and rng.random() < 0.5:
             x, y = y, x
         attrs = dict(attrs)
